@@ -297,6 +297,10 @@ fn common_backend<B: VhostBackend + AsRawFd>(cx: &Ctx, b: &B, mem: &Mem, transla
 fn iotlb_cases<B: VhostIotlbBackend + VhostKernFeatures + AsRawFd>(cx: &Ctx, b: &mut B, name: &str, rng: &mut Rng, n: u64) {
     let u = &cx.u;
     let fd = b.as_raw_fd();
+    // defined starting point for the acknowledged features
+    let _ = b.set_backend_features(0);
+    let _ = take_log(&cx.shim);
+    let mut acked = 0u64;
     for _ in 0..n {
         // backend feature negotiation selects v1 / v2
         let feats = match rng.below(4) {
@@ -305,8 +309,24 @@ fn iotlb_cases<B: VhostIotlbBackend + VhostKernFeatures + AsRawFd>(cx: &Ctx, b: 
             2 => rng.next() | (1u64 << u.konst("VHOST_BACKEND_F_IOTLB_MSG_V2")),
             _ => rng.next() & !(1u64 << u.konst("VHOST_BACKEND_F_IOTLB_MSG_V2")),
         };
-        let _ = b.set_backend_features(feats);
+        // one time in three the kernel refuses the negotiation: the layout must keep following
+        // the features acknowledged last
+        let refused = rng.chance(1, 3);
+        if refused {
+            unsafe { (cx.shim.fail_next)(1) };
+        }
+        let r = b.set_backend_features(feats);
         cx.expect_ioctl(&format!("{name}.set_backend_features"), fd, "VHOST_SET_BACKEND_FEATURES", &feats.to_ne_bytes(), J::x64(feats));
+        if refused {
+            report::count(&format!("fault.{name}.set_backend_features_refused"), 1);
+            if r.is_ok() {
+                cx.bad(&format!("{name}.set_backend_features"), "kernel-error-swallowed", J::x64(feats));
+            }
+        } else {
+            acked = feats;
+        }
+        let offered = feats;
+        let feats = acked;
         let r = b.get_backend_features();
         if let Some(rec) = cx.expect_ioctl(&format!("{name}.get_backend_features"), fd, "VHOST_GET_BACKEND_FEATURES", &[0u8; 8], J::Null) {
             if r.as_ref().ok().copied() != Some(u64_of(&rec.wb)) {
@@ -329,7 +349,7 @@ fn iotlb_cases<B: VhostIotlbBackend + VhostKernFeatures + AsRawFd>(cx: &Ctx, b: 
         let io = u.off(sname, "iotlb");
         let inner = layout(u, "vhost_iotlb_msg", &[("iova", 8, msg.iova), ("size", 8, msg.size), ("uaddr", 8, msg.userspace_addr), ("perm", 1, perm as u8 as u64), ("type", 1, ty as u8 as u64)]);
         want[io..io + inner.len()].copy_from_slice(&inner);
-        report::distinct(report::hash_mix(report::hash_str(&format!("{name}.iotlb.{v2}")), report::hash_bytes(&want)));
+        report::distinct(report::hash_mix(report::hash_str(&format!("{name}.iotlb.{v2}.{refused}")), report::hash_bytes(&want)));
         // struct padding (between `type` and the union, after the last iotlb field) is not defined
         // by the UAPI: compare the fields only
         let fields_eq = |got: &[u8]| -> bool {
@@ -342,7 +362,7 @@ fn iotlb_cases<B: VhostIotlbBackend + VhostKernFeatures + AsRawFd>(cx: &Ctx, b: 
         let ok = log.len() == 1 && log[0].kind == 2 && log[0].fd == fd && fields_eq(&log[0].arg);
         if !ok {
             cx.bad(&format!("{name}.send_iotlb_msg"), if log.len() != 1 { "write-count" } else if log[0].arg.len() != want.len() { "wrong-layout-version" } else { "message-bytes" },
-                jo! {"acked_backend_features" => J::x64(feats), "v2_expected" => v2, "expected" => J::hex(&want), "captured" => log.iter().map(|r| J::hex(&r.arg)).collect::<Vec<J>>()});
+                jo! {"acked_backend_features" => J::x64(feats), "last_negotiation_refused" => refused, "refused_features" => J::x64(offered), "v2_expected" => v2, "expected" => J::hex(&want), "captured" => log.iter().map(|r| J::hex(&r.arg)).collect::<Vec<J>>()});
             continue;
         }
         report::sample(&format!("{name}.iotlb.{v2}"), jo! {"operation" => "send_iotlb_msg", "layout" => sname, "bytes" => J::hex(&want)});
